@@ -567,7 +567,7 @@ Proof. unfold moment. rewrite pow1. reflexivity. Qed.
 Example ex_lengths : (1 <= 3)%nat /\ length [(3/4, 1); (0, 2)] = gl_m 3.
 Proof. split; [lia|reflexivity]. Qed.
 
-Example ex_assemble_1 : gl_assemble ROps 1 (-1) 1 [(0, 1)] = [(1 / 2 * (1 + -1) + 1 / 2 * (1 - -1) * 0, IZR 2 * (1 / 2 * (1 - -1)) / ((1 - 0 * 0) * 1 * 1))].
+Example ex_assemble_1 : gl_assemble ROps 1 (-1) 1 [(0, 1)] = [(1 / 2 * 1 + 1 / 2 * -1 + (1 / 2 * 1 - 1 / 2 * -1) * 0, IZR 2 * (1 / 2 * 1 - 1 / 2 * -1) / ((1 - 0 * 0) * 1 * 1))].
 Proof. reflexivity. Qed.
 
 (** the one-point rule {(0, 2)} has exact moments 0 and 1 on [-1,1] *)
